@@ -8,6 +8,7 @@ package qx
 import (
 	"fmt"
 	"hash/fnv"
+	"os"
 	"path/filepath"
 	"runtime"
 	"sort"
@@ -362,6 +363,11 @@ func (x *Exec) Run() Status {
 				x.Status = StHang
 			} else {
 				x.Status = StDeadlock
+			}
+			if os.Getenv("VERIF_DEBUG_STACKS") != "" {
+				buf := make([]byte, 1<<20)
+				n := runtime.Stack(buf, true)
+				os.Stderr.Write(buf[:n])
 			}
 			return x.Status
 		}
